@@ -3,6 +3,6 @@
 set -e
 cd "$(dirname "$0")"
 export CARGO_NET_OFFLINE=true
-python3 tools/extract_consts.py
+python3 tools/extract_consts.py --all
 (cd lean && lake build)
 (cd harness && cargo build --bins)
